@@ -219,6 +219,36 @@ pub fn gen(tier: &str, seed: u64) -> Vec<String> {
         let h = loop_history(&mut r2, &keys, n_ev, gaps, 700);
         lines.push(mk_kline("KAN", false, &cfg, &h));
     }
+    // kanv2 (fix PENDING-kanv2): a failed chord attempt under chords-v2-min-idle (a alone, or a then a
+    // non-chord key), a pause in which the loop may block, then an input that puts TWO events into the
+    // chords-v2 queue at once - `tp` (KeyValue::Tap: press and release in one input event) or a
+    // virtual-key tap - so that the queue length equals the one remembered by the last scan: before the
+    // repair the scan countdown left over by the cool-down made the blocking loop skip the scan
+    {
+        let k = |n: &str| code(n);
+        for (min_idle, timeout) in [(5u32, 200u32), (5, 50), (30, 200), (20, 500)] {
+            let cfg = format!("(defcfg concurrent-tap-hold yes chords-v2-min-idle {min_idle})\n(defvirtualkeys v0 z)\n(defsrc a b c)\n(deflayer l0 a b c)\n(defchordsv2 (a b) x {timeout} all-released () (b c) y {timeout} first-release ())\n");
+            for hold in [1u32, 3, 10] {
+                for pause in [min_idle + 2, min_idle + 10, 600] {
+                    for second in 0..4 {
+                        let mut h = vec![KEv::L(HEv::Press(0, k("a"))), KEv::Gap(hold), KEv::L(HEv::Release(0, k("a"))), KEv::Gap(pause)];
+                        match second {
+                            0 => h.push(KEv::Tap(k("a"))),
+                            1 => h.push(KEv::Tap(k("c"))),
+                            2 => h.push(KEv::Fake(2, 1, 0)),
+                            _ => {
+                                h.push(KEv::Tap(k("b")));
+                                h.push(KEv::Gap(2));
+                                h.push(KEv::Fake(2, 1, 0));
+                            }
+                        }
+                        h.push(KEv::Gap(timeout + 400));
+                        lines.push(mk_kline("KAN", false, &cfg, &h));
+                    }
+                }
+            }
+        }
+    }
     lines
 }
 
